@@ -1,21 +1,40 @@
 """C18 - numeric building blocks: two-hot coding, robust losses, norms, schedules.
 
-draft (under construction)
+Functions under contract (real source, interpreted from /repo):
+  rl_blox.blox.preprocessing.make_two_hot_bins / two_hot_encoding /
+      two_hot_decoding / two_hot_cross_entropy_loss
+  rl_blox.blox.losses.huber_loss / masked_mse_loss
+  rl_blox.blox.function_approximator.norm.avg_l1_norm
+  rl_blox.blox.schedules.linear_schedule
+
+All postconditions are transcribed from the property statement / docstrings
+(DESIGN 5, C18).  Vector lengths, bin counts, batch sizes and schedule lengths
+are symbolic; floats are reals.  Sums over a symbolic axis are uninterpreted
+Sum nodes related by three named rules: congruence (engine), two-point support
+and scaling (pyvc/lib/ext_numeric.py; premises are obliged at every use;
+statements proved in lemmas/SumLemmas.lean).
 """
 import z3
 
 from pyvc import core as C
 from pyvc import tensor as T
-from pyvc.core import INT, REAL, Sym, band, bnot, bor, iff, implies
+from pyvc.core import INT, REAL, Sym, band, implies
+from pyvc.lib import ext_numeric as XN
 from pyvc.runner import Task
 
 PROPERTY = "C18"
 LEVEL = "proof"
 BL = "rl_blox.blox."
+PRE = BL + "preprocessing."
+SENTINEL = 10 ** 8  # the constant two_hot_encoding uses to push non-positive differences away
 
 
 def inb(i, n):
     return z3.And(i >= 0, i < C.to_z3(n))
+
+
+def zr(v):
+    return C.as_real(v)
 
 
 def shape_is(E, name, t, *dims):
@@ -29,26 +48,318 @@ def shape_is(E, name, t, *dims):
 
 # ------------------------------------------------------------------- Huber
 def h_huber(E):
-    n = E.int("n", 1)
+    """huber_loss(a, delta) per element, a = |e| >= 0, delta > 0"""
+    n = E.dim("n", 1)
     a = T.fresh_tensor("abs_errors", (n,), REAL)
-    E.st.assume_forall([INT], lambda i: C.as_real(a.at(i)) >= 0, "abs.nonneg")
+    E.st.assume_forall([INT], lambda i: zr(a.at(i)) >= 0, "abs.nonneg")
     delta = E.real("delta")
     E.assume(delta > 0)
     r = E.call(BL + "losses.huber_loss", a, delta)
     if not shape_is(E, "huber.shape", r, n):
         return
-    az = lambda i: C.as_real(a.at(i))  # noqa: E731
-    rz = lambda i: C.as_real(r.at(i))  # noqa: E731
+    az = lambda i: zr(a.at(i))  # noqa: E731
+    rz = lambda i: zr(r.at(i))  # noqa: E731
     d = delta.z
+    E.oblige("canary.huber", Sym(rz(z3.IntVal(0)) == 0), assume_after=False)
     E.st.oblige_forall("huber.quadratic_within_delta", [INT], lambda i: z3.Implies(z3.And(inb(i, n), az(i) <= d), rz(i) == az(i) * az(i) / 2), hint="i")
     E.st.oblige_forall("huber.linear_beyond_delta", [INT], lambda i: z3.Implies(z3.And(inb(i, n), az(i) > d), rz(i) == d * (az(i) - d / 2)), hint="i")
-    E.oblige("canary.huber", Sym(rz(z3.IntVal(0)) == 0), assume_after=False)
+
+
+def h_huber_scalar(E):
+    a = E.real("abs_error", 0)
+    delta = E.real("delta")
+    E.assume(delta > 0)
+    r = E.call(BL + "losses.huber_loss", a, delta)
+    E.oblige("canary.huber", r == 0, assume_after=False)
+    E.oblige("huber.scalar.quadratic_within_delta", implies(a <= delta, r == a * a / 2))
+    E.oblige("huber.scalar.linear_beyond_delta", implies(a > delta, r == delta * (a - delta / 2)))
+
+
+# --------------------------------------------------------------- masked MSE
+def _masked_inputs(E, shape, N, tag=""):
+    p = T.fresh_tensor("predictions" + tag, shape, REAL)
+    t = T.fresh_tensor("targets" + tag, shape, REAL)
+    return p, t
+
+
+def h_mse_rank2(E):
+    """(N, D) predictions/targets, (N,) mask:
+    loss == (1/(N D)) sum_{i,d} (p_id - t_id)^2 m_i; masked rows weigh nothing"""
+    N, D = E.dim("N", 1), E.dim("D", 1)
+    p, t = _masked_inputs(E, (N, D), N)
+    m = T.fresh_tensor("mask", (N,), REAL)
+    loss = E.call(BL + "losses.masked_mse_loss", p, t, m)
+    if isinstance(loss, T.Tensor):
+        E.st.fail("masked_mse.scalar", f"loss has shape {loss.shape}")
+        return
+    E.st.ok("masked_mse.scalar")
+    E.oblige("canary.mse", C.compare("==", loss, 0), assume_after=False)
+    spec = T.Tensor((N, D), lambda i, d: (p.at(i, d) - t.at(i, d)) * (p.at(i, d) - t.at(i, d)) * m.at(i), REAL)
+    total = T.reduce(T.reduce(spec, "sum", 1), "sum", 0)
+    E.oblige("masked_mse.formula", C.compare("==", loss, C.binop("/", total, C.binop("*", N, D))))
+    # two copies: the second differs from the first only inside masked rows (m_i == 0)
+    p2, t2 = _masked_inputs(E, (N, D), N, "_other")
+    E.st.assume_forall([INT, INT], lambda i, d: z3.Implies(zr(m.at(i)) != 0, z3.And(zr(p2.at(i, d)) == zr(p.at(i, d)), zr(t2.at(i, d)) == zr(t.at(i, d)))), "same_on_unmasked_rows")
+    loss2 = E.call(BL + "losses.masked_mse_loss", p2, t2, m)
+    E.oblige("masked_mse.masked_rows_do_not_contribute", C.compare("==", loss2, loss))
+
+
+def h_mse_rank1(E):
+    """(N,) predictions/targets with an (N,) mask (how model_based_encoder_loss
+    uses it for the reward / done losses): the property demands zero weight
+    for masked rows, i.e. loss == (1/N) sum_i (p_i - t_i)^2 m_i - or a loud
+    rejection of the rank-1 input."""
+    N = E.dim("N")
+    p, t = _masked_inputs(E, (N,), N)
+    m = T.fresh_tensor("mask", (N,), REAL)
+    E.st.assume_forall([INT], lambda i: z3.Or(zr(m.at(i)) == 0, zr(m.at(i)) == 1), "mask01")
+    kind, loss = E.call_catch(BL + "losses.masked_mse_loss", p, t, m)
+    if kind == "raise":
+        E.st.ok("masked_mse[rank1].formula_or_rejection")
+        E.st.ok("masked_mse[rank1].masked_rows_do_not_contribute")
+        return
+    if isinstance(loss, T.Tensor):
+        E.st.fail("masked_mse[rank1].formula_or_rejection", f"loss has shape {loss.shape}")
+        return
+    E.oblige("canary.mse1", C.compare("==", loss, 0), assume_after=False)
+    spec = T.Tensor((N,), lambda i: (p.at(i) - t.at(i)) * (p.at(i) - t.at(i)) * m.at(i), REAL)
+    total = T.reduce(spec, "sum", 0)
+    E.oblige("masked_mse[rank1].formula_or_rejection", C.compare("==", loss, C.binop("/", total, N)), assume_after=False)
+    p2, t2 = _masked_inputs(E, (N,), N, "_other")
+    E.st.assume_forall([INT], lambda i: z3.Implies(zr(m.at(i)) != 0, z3.And(zr(p2.at(i)) == zr(p.at(i)), zr(t2.at(i)) == zr(t.at(i)))), "same_on_unmasked_rows")
+    loss2 = E.call(BL + "losses.masked_mse_loss", p2, t2, m)
+    E.oblige("masked_mse[rank1].masked_rows_do_not_contribute", C.compare("==", loss2, loss), assume_after=False)
+
+
+# ---------------------------------------------------------------- AvgL1Norm
+def mk_avg_l1(rank):
+    def h(E):
+        D = E.dim("D", 1)
+        shape = (D,) if rank == 1 else (E.dim("N", 1), D)
+        k = rank - 1
+        x = T.fresh_tensor("x", shape, REAL)
+        eps = E.real("eps")
+        E.assume(eps > 0)
+        out = E.call(BL + "function_approximator.norm.avg_l1_norm", x, eps)
+        if not shape_is(E, "avg_l1.shape", out, *shape):
+            return
+        E.oblige("canary.avg_l1", Sym(zr(out.at(*([0] * rank))) == zr(x.at(*([0] * rank)))), assume_after=False)
+        guard = (lambda *ps: z3.And(*[inb(q, shape[a]) for a, q in enumerate(ps)])) if k else None
+        g = lambda ps: guard(*ps) if k else z3.BoolVal(True)  # noqa: E731
+        sx, node_x = XN.spec_sum(E.st, T.tabs(x), k)      # sum_d |x_d|
+        so, node_o = XN.spec_sum(E.st, T.tabs(out), k)    # sum_d |out_d|
+        val = lambda s, ps: zr(s.at(*ps)) if isinstance(s, T.Tensor) else zr(s)  # noqa: E731
+        Dz = z3.ToReal(C.to_z3(D)) if not isinstance(D, int) else z3.RealVal(D)
+        mean_x = lambda ps: val(sx, ps) / Dz  # noqa: E731
+        cmax = lambda ps: z3.If(mean_x(ps) >= eps.z, mean_x(ps), eps.z)  # noqa: E731
+        # documented formula: x / max(mean_d |x_d|, eps)
+        E.st.oblige_forall("avg_l1.formula", [INT] * rank, lambda *v: z3.Implies(z3.And(g(v[:k]), inb(v[k], D)), zr(out.at(*v)) == zr(x.at(*v)) / cmax(v[:k])), hint="d")
+        # finite for near-zero input: |out_d| <= |x_d| / eps always
+        E.st.oblige_forall("avg_l1.bounded_by_x_over_eps", [INT] * rank, lambda *v: z3.Implies(z3.And(g(v[:k]), inb(v[k], D)), zr(T.tabs(out).at(*v)) <= zr(T.tabs(x).at(*v)) / eps.z), hint="d")
+        # mean absolute value is one: sum_d |x_d / c| == (1/c) sum_d |x_d|   (rule sum_scale)
+        XN.sum_scale(E.st, "avg_l1", node_o, node_x, lambda *ps: 1 / cmax(ps), guard=guard)
+        goal = lambda *ps: z3.Implies(z3.And(g(ps), mean_x(ps) >= eps.z), val(so, ps) / Dz == 1)  # noqa: E731
+        if k:
+            E.st.oblige_forall("avg_l1.mean_abs_is_one", [INT] * k, goal, hint="row")
+        else:
+            E.oblige("avg_l1.mean_abs_is_one", Sym(goal()))
+    return h
+
+
+# ---------------------------------------------------------- linear_schedule
+def h_schedule(E):
+    total = E.int("total_timesteps", 1)
+    start, end = E.real("start"), E.real("end")
+    fraction = E.real("fraction")
+    E.assume(band(fraction > 0, fraction <= 1))
+    s = E.call(BL + "schedules.linear_schedule", total, start, end, fraction)
+    if not shape_is(E, "schedule.length_is_total_timesteps", s, total):
+        return
+    k = z3.ToInt(z3.ToReal(total.z) * fraction.z)  # floor(total * fraction), the length of the transition
+    sz = lambda t: zr(s.at(t))  # noqa: E731
+    E.st.add_pool(k, k - 1, z3.IntVal(0))
+    E.oblige("canary.schedule", Sym(sz(z3.IntVal(0)) == end.z), assume_after=False)
+    E.st.oblige_forall("schedule.end_value_after_transition", [INT], lambda t: z3.Implies(z3.And(t >= k, t < total.z), sz(t) == end.z), hint="t")
+    E.oblige("schedule.starts_at_start", Sym(z3.Implies(k >= 1, sz(z3.IntVal(0)) == start.z)))
+    E.st.oblige_forall("schedule.monotone", [INT], lambda t: z3.Implies(
+        z3.And(t >= 0, t + 1 < total.z),
+        z3.If(start.z >= end.z, sz(t) >= sz(t + 1), sz(t) <= sz(t + 1))), hint="t")
+    E.st.oblige_forall("schedule.between_start_and_end", [INT], lambda t: z3.Implies(
+        inb(t, total),
+        z3.If(start.z >= end.z, z3.And(end.z <= sz(t), sz(t) <= start.z), z3.And(start.z <= sz(t), sz(t) <= end.z))), hint="t")
+
+
+# ------------------------------------------------------------------ two-hot
+def _bins(E, n, wide=False):
+    """strictly increasing bin edges b_0 < ... < b_{n-1} (StrictMono: pairwise)"""
+    b = T.fresh_tensor("bins", (n,), REAL)
+    bz = lambda j: zr(b.at(j))  # noqa: E731
+    E.st.assume_forall([INT, INT], lambda j, k: z3.Implies(z3.And(j >= 0, j < k, k < C.to_z3(n)), bz(j) < bz(k)), "bins.strictly_increasing")
+    if not wide:
+        E.assume(Sym(bz(C.to_z3(n) - 1) - bz(z3.IntVal(0)) < SENTINEL))
+    return b, bz
+
+
+def _values_in_range(E, name, B, n, bz):
+    x = T.fresh_tensor(name, (B,), REAL)
+    E.st.assume_forall([INT], lambda r: z3.Implies(inb(r, B), z3.And(bz(z3.IntVal(0)) <= zr(x.at(r)), zr(x.at(r)) <= bz(C.to_z3(n) - 1))), name + ".in_bin_range")
+    return x
+
+
+def _encode(E, b, x):
+    """call the real two_hot_encoding; returns (row tensor, lower-edge witness lo(r)).
+    The witness is read off the execution trace (the arg-min node of the call);
+    it is only a hint: every fact about it is an obligation."""
+    mark = len(E.st.sums)
+    th = E.call(PRE + "two_hot_encoding", b, x)
+    mins = XN.nodes_since(E.st, mark, "min")
+    lo = None
+    if len(mins) == 1 and mins[0].nparams == 1:
+        af = mins[0].af
+        lo = lambda r: af(r)  # noqa: E731
+    return th, lo
+
+
+def mk_two_hot(wide=False, n_fixed=None):
+    """wide=False: bin range below the code's 1e8 sentinel (ASSUMPTIONS);
+    wide=True: any strictly increasing bins, as the property quantifies
+    ("all bin counts and exponent ranges") - run on a concrete bin count so
+    that a counterexample is exact."""
+    def h(E):
+        n = E.dim("n_bins") if n_fixed is None else n_fixed
+        B = E.dim("n_samples", 1) if n_fixed is None else 1
+        nz = C.to_z3(n)
+        b, bz = _bins(E, n, wide)
+        x = _values_in_range(E, "x", B, n, bz)
+        H = ["bins.", "x.in_bin_range"]  # the harness' quantified hypotheses
+        th, lo = _encode(E, b, x)
+        if not shape_is(E, "two_hot.shape", th, B, n):
+            return
+        tz = lambda r, j: zr(th.at(r, j))  # noqa: E731
+        # an arbitrary row r0 (Skolem): every statement below is for all rows
+        r0 = E.st.fresh("r", INT)
+        E.st.assume(inb(r0, B))
+        x0 = zr(x.at(r0))
+        E.st.add_pool(r0, z3.IntVal(0), nz - 1, nz - 2)
+        E.oblige("canary.two_hot", Sym(tz(r0, z3.IntVal(0)) == 0), assume_after=False, using=H)
+        if isinstance(n, int):
+            U = H  # concrete bin count (counterexample confirmation): reductions are unrolled exactly
+            node1 = None
+        elif lo is None:
+            E.st.undecided("two_hot.lemma.lower_edge_brackets_value", "no arg-min node in the trace of two_hot_encoding: no witness for the support positions")
+            return
+        else:
+            # proof step: the chosen lower edge brackets the value
+            l0 = lo(r0)
+            E.st.add_pool(l0, l0 - 1, l0 + 1)
+            E.oblige("two_hot.lemma.lower_edge_brackets_value", Sym(z3.And(
+                l0 >= 0, l0 + 1 <= nz - 1, bz(l0) <= x0, x0 <= bz(l0 + 1), bz(l0) < bz(l0 + 1),
+                z3.Implies(x0 == bz(l0), l0 == 0))), using=H + ["min"])
+            U = []  # from here on the ground facts above suffice
+        E.st.oblige_forall("two_hot.entries_non_negative", [INT], lambda j: z3.Implies(inb(j, n), tz(r0, j) >= 0), hint="j", using=U)
+        E.st.oblige_forall("two_hot.at_most_two_adjacent_nonzero", [INT, INT], lambda j1, j2: z3.Implies(
+            z3.And(inb(j1, n), inb(j2, n), tz(r0, j1) != 0, tz(r0, j2) != 0), z3.And(j1 - j2 <= 1, j2 - j1 <= 1)), hint="j", using=U)
+        # sum_j row_j == 1 and sum_j row_j b_j == x  (rule sum_two_point_support at {lo, lo+1})
+        s1, node1 = XN.spec_sum(E.st, th, 1)
+        mark = len(E.st.sums)
+        dec = E.call(PRE + "two_hot_decoding", b, th)
+        nodes_dec = XN.nodes_since(E.st, mark, "sum")
+        if lo is not None and not isinstance(n, int):
+            XN.sum_two_point_support(E.st, "two_hot.sum", node1, lo, lambda r: lo(r) + 1, at=(r0,), using=U)
+            if len(nodes_dec) == 1:
+                XN.sum_two_point_support(E.st, "two_hot.decode", nodes_dec[0], lo, lambda r: lo(r) + 1, at=(r0,), using=U)
+        E.oblige("two_hot.entries_sum_to_one", Sym(zr(s1.at(r0)) == 1), using=U)
+        if shape_is(E, "two_hot.decoding_shape", dec, B):
+            E.oblige("two_hot.decoding_returns_value", Sym(zr(dec.at(r0)) == x0), using=U)
+        # exact bin edges: a single non-zero entry, at the edge itself
+        e = E.st.fresh("edge", INT)
+        E.st.add_pool(e)
+        E.st.oblige_forall("two_hot.exact_edge_is_one_hot", [INT], lambda j: z3.Implies(
+            z3.And(inb(e, n), x0 == bz(e), inb(j, n)), tz(r0, j) == z3.If(j == e, z3.RealVal(1), z3.RealVal(0))), hint="j", using=U + ["bins."])
+        if all(r.verdict == "discharged" for r in E.st.results if "canary" not in r.name):
+            # the lemma conclusions assumed above are consistent (only meaningful when nothing failed on this path)
+            E.oblige("canary.two_hot_end", Sym(tz(r0, z3.IntVal(1)) == 0), assume_after=False, using=U)
+    return h
+
+
+def _stub_encoding(shared):
+    """modular: inside two_hot_cross_entropy_loss the callee two_hot_encoding is
+    replaced by 'returns some (n_samples, n_bins) real tensor' (its own contract
+    is the task two_hot_encoding); the call arguments are recorded."""
+    def stub(E, bins, x):
+        bins, x = T.as_tensor(bins), T.as_tensor(x)
+        enc = T.fresh_tensor("encoded_target", (x.shape[0], bins.shape[0]), REAL, is_input=False)
+        E.st.ghost.setdefault("two_hot_calls", []).append((bins, x, enc))
+        return enc
+    shared.stubs[PRE + "two_hot_encoding"] = stub
+
+
+def h_two_hot_ce(E):
+    """two_hot_cross_entropy_loss(bins, logits, target)[r] == -sum_j enc[r, j] * log_softmax(logits)[r, j]
+    with enc = two_hot_encoding(bins, target) and log_softmax(z)_j = z_j - log sum_k exp z_k"""
+    n = E.dim("n_bins")
+    B = E.dim("n_samples", 1)
+    b = T.fresh_tensor("bins", (n,), REAL)
+    y = T.fresh_tensor("target", (B,), REAL)
+    logits = T.fresh_tensor("logits", (B, n), REAL)
+    ce = E.call(PRE + "two_hot_cross_entropy_loss", b, logits, y)
+    if not shape_is(E, "cross_entropy.shape", ce, B):
+        return
+    E.oblige("canary.ce", Sym(zr(ce.at(0)) == 0), assume_after=False)
+    calls = E.st.ghost.get("two_hot_calls", [])
+    if len(calls) == 1 and calls[0][0] is b and calls[0][1] is y:
+        E.st.ok("cross_entropy.target_is_two_hot_encoding_of_target_values")
+    else:
+        E.st.fail("cross_entropy.target_is_two_hot_encoding_of_target_values", f"{len(calls)} encoding calls / other arguments")
+        return
+    enc = calls[0][2]
+    lse = T.tfn("log", T.reduce(T.tfn("exp", logits), "sum", 1))
+    logp = T.Tensor((B, n), lambda r, j: logits.at(r, j) - lse.at(r), REAL)
+    spec = -T.reduce(enc * logp, "sum", 1)
+    E.st.oblige_forall("cross_entropy.is_minus_sum_target_log_softmax", [INT], lambda r: z3.Implies(inb(r, B), zr(ce.at(r)) == zr(spec.at(r))), hint="r")
+
+
+def h_make_bins(E):
+    n = E.dim("n_bin_edges")
+    lo, hi = E.real("lower_exponent"), E.real("upper_exponent")
+    E.assume(lo < hi)
+    b = E.call(PRE + "make_two_hot_bins", lo, hi, n)
+    if not shape_is(E, "make_bins.length", b, n):
+        return
+    bz = lambda j: zr(b.at(j))  # noqa: E731
+    E.oblige("canary.bins", Sym(bz(z3.IntVal(0)) == 0), assume_after=False)
+    E.st.oblige_forall("make_bins.strictly_increasing", [INT, INT], lambda j, k: z3.Implies(z3.And(j >= 0, j < k, k < C.to_z3(n)), bz(j) < bz(k)), hint="j")
 
 
 TASKS = [
     Task("huber_loss", h_huber),
+    Task("huber_loss[scalar]", h_huber_scalar),
+    Task("masked_mse_loss", h_mse_rank2),
+    Task("masked_mse_loss[rank1]", h_mse_rank1),
+    Task("avg_l1_norm", mk_avg_l1(1)),
+    Task("avg_l1_norm[batch]", mk_avg_l1(2)),
+    Task("linear_schedule", h_schedule),
+    Task("two_hot_encoding", mk_two_hot()),
+    Task("two_hot_encoding[any-range,3-bins]", mk_two_hot(wide=True, n_fixed=3), bounded="n_bins == 3, n_samples == 1 (exhibits the range limit; see ASSUMPTIONS)"),
+    Task("two_hot_cross_entropy_loss", h_two_hot_ce, setup=_stub_encoding),
+    Task("make_two_hot_bins", h_make_bins),
 ]
 
-TRUSTED = []
-ASSUMPTIONS = []
-NOT_COVERED = []
+TRUSTED = [
+    "rule sum_two_point_support (pyvc/lib/ext_numeric.py; premise obliged at each use) - lemmas/SumLemmas.lean: PyvcSum.sum_two_point_support",
+    "rule sum_scale (pyvc/lib/ext_numeric.py; premise obliged at each use) - lemmas/SumLemmas.lean: PyvcSum.sum_scale",
+    "rule sum congruence (pyvc.tensor.close_sums) - lemmas/SumLemmas.lean: PyvcSum.sum_congr_range",
+    "real exp: positive, exp(0)=1, strictly increasing; sign(x) in {-1,0,1} by the sign of x (pyvc.tensor.AXIOMS, instantiated per query)",
+]
+ASSUMPTIONS = [
+    "reals for floats (no float32 absorption in diff - 1e8*(sign(diff)-1), no rounding at bin edges)",
+    "bins strictly increasing (pairwise), n_bins >= 2, every encoded value inside [b_0, b_{n-1}]",
+    "two_hot_encoding: b_{n-1} - b_0 < 1e8, the sentinel the code adds to non-positive differences",
+    "huber_loss: abs_errors >= 0 (it is |e|), delta > 0; avg_l1_norm: eps > 0",
+    "linear_schedule: total_timesteps >= 1, fraction in (0, 1]",
+    "masked_mse_loss[rank1]: mask entries in {0, 1} (documented)",
+]
+NOT_COVERED = [
+    "float32 rounding: values closer to a bin edge than float resolution, exp overflow for exponents > 88",
+]
+REPLAY = {"": "c18_numeric"}
